@@ -149,7 +149,45 @@ def c05d(prog, rep):
               instance={"level_stores_dominating_the_push": len(fin)})
 
 
+def c05e(prog, rep):
+    """C05.e — `<` / `>` are classified as comparison or type-argument brackets only AFTER parsing (the generics consolidator is a
+    post-parse consolidator), so while parsing, the chevron depth the parser keeps is not a bracket depth: inside parentheses it
+    rises on every comparison and never comes back (`(A < B)`).  A skip over a parenthesised / bracketed group must therefore not
+    wait for the chevron depth to return — it would run to the end of the file and join every following statement onto one line.
+    Contradiction rule: (chevrons classified after the parser) => (skip_pair compares generic_level only when the skipped pair
+    starts with `<`)."""
+    R = "C05.e"
+    mf = prog.body("pasfmt::make_formatter")
+    post = False
+    if mf is not None:
+        seq = [(c.callee or "").split("::")[-2:] for c in mf.calls() if (c.callee or "").startswith("pasfmt_core::formatter::Add")]
+        names = ["::".join(x) for x in seq]
+        for c in mf.calls():
+            args = " ".join(str(a) for a in (c.t.get("callee_args") or []))
+            if "DistinguishGenericTypeParamsConsolidator" in args and (c.callee or "").startswith("pasfmt_core::formatter::AddPostParseConsolidator"):
+                post = True
+    sp = prog.body(LLP + "skip_pair")
+    if not rep.check(sp is not None, R, "anchor:skip_pair", "skip_pair not found"):
+        return
+    reads = [a for a in prog.field_accesses(P + "InternalDelphiLogicalLineParser", "generic_level", within={sp.npath}) if a[3] == "read"]
+    if not post or not reads:
+        rep.ok(R, {"chevrons_classified_after_parsing": post, "skip_pair_reads_generic_level": len(reads)}, nontrivial=False)
+        return
+    from util import enum_variants_mentioned
+    looks = any(v == "LessThan" for _, v in enum_variants_mentioned(sp))
+    if not looks:
+        # `matches!(.., Some(TT::Op(OK::LessThan(_))))` is a chain of discriminant switches: a block that is reached under `is LessThan`
+        for bb in sorted(sp.reachable()):
+            if any(f[1] == "is" and "LessThan" in f[2] for f in dominating_variant_facts(prog, sp, bb)):
+                looks = True
+                break
+    rep.check(looks, R, "chevron-depth-only-for-chevron-pairs", "skip_pair waits for the chevron depth to return whatever it skips, although `<` / `>` are only classified after parsing: "
+              "`raise EFoo.Create(A < B);` never gets back to its chevron depth and every following statement up to the end of the file is joined onto that line",
+              where="%s:%d" % (sp.file, sp.line), instance={"chevrons_classified_after_parsing": True, "generic_level_reads": len(reads), "conditional_on_starting_at_<": looks})
+
+
 def check_c05(prog, rep, tier, cfg):
+    c05e(prog, rep)
     c05a(prog, rep)
     c05b(prog, rep)
     c05c(prog, rep)
@@ -161,5 +199,5 @@ PROPERTIES = {
             "Structural necessary conditions of block rendering, one per hand-over point the property is anchored in: (a) format_line starts every top-level logical line with a forced break at "
             "(level indentations, 0 continuations), except the first line of the file; (b) Decision::Break becomes >= 1 line break at the solution's indentation, Decision::Continue none; "
             "(c) begin_style=Always_Wrap <-> break_before_begin=true, read only where the break before the first child line is decided; (d) every finished logical line gets the level "
-            "computed by get_context_level() and the next line starts at it. Which tokens form a statement and the level arithmetic of the context stack are NOT decided.", []),
+            "computed by get_context_level() and the next line starts at it; (e) a skip over a parenthesised group does not wait for the (not yet classified) chevrons to balance. Which tokens form a statement and the level arithmetic of the context stack are NOT decided.", []),
 }
